@@ -33,6 +33,10 @@ def run(ctx):
     rule_hashes(ctx, repo, it)
     rule_verify(ctx, repo, it)
     rule_multisig(ctx, repo, it)
+    # signature opcodes: the digest is taken over the script from the last executed CODESEPARATOR with the signature
+    # push removed, for CHECKSIG and CHECKMULTISIG alike (the wiring obligations of C05 are opcode semantics too)
+    from . import c05
+    c05.retag(ctx, c05.rule_wiring, 'C06.W1', repo)
     ctx.extra.pop('_interp', None)
     ctx.not_decided += ['script-number codec arithmetic (bn2vch/vch2bn)', 'RIPEMD-160/SHA rounds (tables and padding shape are decided, the rounds are not)',
                         'FindAndDelete', 'ECDSA signature checks', 'loop-carried index bounds of the multisig matching loop',
@@ -261,11 +265,15 @@ def rule_bool_pushes(ctx, repo, it):
         fi = repo.get_function(q)
         for c in common.iter_calls(fi.node):
             if isinstance(c.func, ast.Attribute) and c.func.attr == 'append' and norm(c.func.value) == 'stack' and len(c.args) == 1:
-                v = repo.fold(c.args[0], fi.module)
-                if isinstance(v, bytes):
-                    n += 1
-                    r.check(v in (b'\x01', b''), '%s:%d:%r' % (fi.name, n, v), common.site_of(fi, c), 'pushes %r' % (v,),
-                            'a boolean result is pushed as %r; the reference pushes 01 for true and the empty vector for false (observable through SIZE/EQUAL and the final stack)' % (v,))
+                alts = [c.args[0]]
+                if isinstance(c.args[0], ast.IfExp):
+                    alts = [c.args[0].body, c.args[0].orelse]  # stack.append(b'\x01' if ok else b'')
+                for a in alts:
+                    v = repo.fold(a, fi.module)
+                    if isinstance(v, bytes):
+                        n += 1
+                        r.check(v in (b'\x01', b''), '%s:%d:%r' % (fi.name, n, v), common.site_of(fi, c), 'pushes %r' % (v,),
+                                'a boolean result is pushed as %r; the reference pushes 01 for true and the empty vector for false (observable through SIZE/EQUAL and the final stack)' % (v,))
 
 
 # ------------------------------------------------------------------------------------------------ L1 limits
@@ -518,16 +526,19 @@ def rule_hashes(ctx, repo, it):
     rf = repo.get_function('bitcoin.core.contrib.ripemd160.ripemd160')
     iv = None
     for n in walk_no_nested(rf.node):
-        if isinstance(n, ast.Assign) and norm(n.targets[0]) == 'state' and isinstance(n.value, ast.Tuple):
-            iv = repo.fold(n.value, rm)
+        if isinstance(n, ast.Assign) and norm(n.targets[0]) == 'state' and iv is None:
+            v_ = repo.fold(n.value, rm)
+            if isinstance(v_, tuple):
+                iv = v_
     r.check(iv == spec.RIPEMD['IV'], 'ripemd160:IV', rf.site, 'initial state', 'RIPEMD-160 initial state is %r' % (iv,))
     # padding: 0x80, zeros up to 56 mod 64, 8-byte little-endian bit length
     data = rf.params[0]
     defs = {norm(n.targets[0]): n.value for n in walk_no_nested(rf.node) if isinstance(n, ast.Assign) and len(n.targets) == 1}
     pad = defs.get('pad')
     fin = defs.get('fin')
-    pad_ok = pad is not None and c20.canon(pad) == c20.canon(ast.parse("b'\\x80' + b'\\x00' * ((119 - len(%s)) & 63)" % data, mode='eval').body)
-    fin_ok = fin is not None and norm(fin) == "%s[len(%s) & ~63:] + pad + (8 * len(%s)).to_bytes(8, 'little')" % (data, data, data)
+    from ..rules import canon_arith
+    pad_ok = pad is not None and canon_arith(pad) == canon_arith("b'\\x80' + b'\\x00' * ((119 - len(%s)) & 63)" % data)
+    fin_ok = fin is not None and canon_arith(fin) == canon_arith("%s[len(%s) & ~63:] + pad + (8 * len(%s)).to_bytes(8, 'little')" % (data, data, data))
     if pad_ok and fin_ok:
         r.ok('ripemd160:padding', rf.site, '80 00* to 56 mod 64, then the 64-bit little-endian bit length')
     else:
